@@ -1,8 +1,13 @@
 from .. import core
+from . import c17
 
 
 def units(tier, seed):
+    c17.gen_source()
+    RA = dict(defines=['REGALLOC_SRC="%s"' % c17.GEN], timeout=600, object_bits=10, cbmc_flags=['--no-array-field-sensitivity'])
     return [
+        core.Unit('orc_compiler_new_temporary', ['contracts/regalloc.c'], 'h_new_temporary', enforce='orc_compiler_new_temporary', **RA),
+        core.Unit('orc_compiler_dup_temporary', ['contracts/regalloc.c'], 'h_dup_temporary', enforce='orc_compiler_dup_temporary', **RA),
         core.Unit('orc_compiler_check_sizes', ['contracts/compiler.c'], 'h_check_sizes', enforce='orc_compiler_check_sizes',
                   timeout=900, object_bits=10, unwind=101,
                   loops=[{'function': 'orc_compiler_check_sizes', 'file': 'orc/orccompiler.c', 'anchor': 'for(i=0;i<compiler->n_insns;i++) {',
